@@ -95,6 +95,7 @@ type Path struct {
 	strConsts  map[string]*Object
 	typeIDs    map[string]int
 	lockEvents bool
+	codecTag   string // struct tag key of the running vf.JSONCopy / vf.CBORCopy
 	x25519Shared [][3]*Term // (lo, hi, shared secret) of every X25519 exchange so far: collision-free
 	x25519IDs  []*Term // identifiers (first 64 bits) of the X25519 keys generated so far: pairwise distinct
 	interleave   *FuncV            // vf.Interleave: pending operation of another thread
